@@ -146,6 +146,13 @@ func apply(m0 *mstate, e Ev) *mstate {
 		return m
 	case "P":
 		n := m.write(o.Key, val, exp)
+		if o.Exp == "-1h" {
+			delete(m.recs, o.Key) // written expired: absent for every later operation (the version is used up)
+			if e.Class == "ORec" && e.Rec != nil && e.Rec.Exp == 3 && e.Rec.Key == o.Key && e.Rec.Val == val && m.bind(e.Rec.Ver, n) {
+				return m
+			}
+			return nil
+		}
 		if e.Class == "ORec" && m.matchRec(e.Rec, o.Key, val, n, exp) {
 			return m
 		}
